@@ -161,6 +161,9 @@ type Cloner interface{ Clone() Cloner }
 
 const depositsPerBlock = 10
 
+// Tk2 is the second locking token of configurations that register one.
+var Tk2 = common.HexToAddress("0x00000000000000000000000000000000000000a2")
+
 // NewWorld boots a chain for the configuration.
 func NewWorld(cfg *sim.GenesisCfg) (*World, error) {
 	n, err := sim.NewChain(cfg)
@@ -670,6 +673,14 @@ func (w *World) ApplyReq(e Event) (commit func()) {
 		return func() {}
 	case "req:unknown-token-lock":
 		el.NextLocking.Locks = append(el.NextLocking.Locks, &goattypes.LockRequest{Validator: w.ValKeys[0].EthAddr(), Token: common.BytesToAddress([]byte{0x77}), Amount: big.NewInt(5)})
+		return func() {}
+	case "req:create-tk2":
+		k := w.ValKeys[len(w.N.Cfg.Vals)+1]
+		el.NextLocking.Creates = append(el.NextLocking.Creates, &goattypes.CreateRequest{Validator: k.EthAddr(), Pubkey: k.Uncompressed()})
+		el.NextLocking.Locks = append(el.NextLocking.Locks, &goattypes.LockRequest{Validator: k.EthAddr(), Token: Tk2, Amount: new(big.Int).Mul(big.NewInt(int64(e.N)), big.NewInt(1e18))})
+		return func() {}
+	case "req:weight-tk2":
+		el.NextLocking.UpdateWeights = append(el.NextLocking.UpdateWeights, &goattypes.UpdateTokenWeightRequest{Token: Tk2, Weight: uint64(e.N)})
 		return func() {}
 	case "req:unknown-validator-lock":
 		el.NextLocking.Locks = append(el.NextLocking.Locks, &goattypes.LockRequest{Validator: common.BytesToAddress([]byte{0xde, 0xad}), Token: common.Address{}, Amount: big.NewInt(5)})
